@@ -133,6 +133,7 @@ type caseJ struct {
 	Err        string  `json:"err,omitempty"`
 	Obs        []obsJ  `json:"obs,omitempty"`
 	FindingKey string  `json:"finding_key,omitempty"`
+	Changes    bool    `json:"changes_outcome,omitempty"` // the directive / ctl changed an observable of some request
 }
 
 // ---- SecLang text ----
@@ -728,6 +729,10 @@ func Run(cfg vh.Config) (*vh.Result, error) {
 					nontriv[c.Conf] = true
 				}
 			}
+		}
+		if nontriv[c.Conf] {
+			c.Changes = true
+			dist.Inc("changes-outcome:" + shapeClass(c.Shape))
 		}
 
 		// (b) the property's own oracle: directive / ctl form vs explicitly rewritten text
